@@ -256,6 +256,31 @@ def run(F, R, ctx):
                        marker, kind, c, kind, need), fn_.loc(), sample=True if nh <= 3 else None)
     R.floor("C04.h", "kinds compared", nh, 30)
 
+    # ---------------- i: the parallel marker marks every root and waits for every worker
+    pm = F.find(r"^steel::values::closed::\{impl ParallelMarker\}::mark$")
+    if pm:
+        R.rule("C04.i", "ParallelMarker::mark queues every root it is given (from_value + push in a loop over the slice), wakes "
+                        "the workers and does not return before it has received an acknowledgement from the workers (recv in "
+                        "a loop, on every path to the return): marking is complete when the sweep starts")
+        fn = pm[0]
+        pushes = [i for i, b in fn.calls() if re.search(r"SegQueue<T>\}::push$", b["callee"])]
+        fv = fn.call_blocks(r"\{impl SteelValPointer\}::from_value$")
+        sends = [i for i, b in fn.calls() if re.search(r"Sender<T>\}::send$", b["callee"])]
+        recvs = [i for i, b in fn.calls() if re.search(r"Receiver<T>\}::recv$", b["callee"])]
+        in_loop = lambda b_: b_ in fn.reachable_from(fn.succ(b_))
+        ok_push = bool(pushes) and bool(fv) and all(in_loop(p) for p in pushes)
+        R.inst("C04.i", "ParallelMarker::mark queues every root", ok_push,
+               "ParallelMarker::mark no longer pushes SteelValPointer::from_value(root) for each root in a loop", fn.loc(), sample=True)
+        nxt = [i for i, b in fn.calls() if re.search(r"::next$", b["callee"])]
+        heads = [h for h in nxt if any(r_ in fn.reachable_from(fn.succ(h), avoid=set(nxt) - {h}) for r_ in recvs)]
+        ok_wait = bool(sends) and bool(recvs) and all(in_loop(r_) for r_ in recvs) and bool(heads) and \
+            all(fn.every_path_passes_from(fn.succ(s_), fn.returns(), heads)[0] for s_ in sends)
+        # the acknowledgement loop must range over the same collection as the wake-up loop: no take/skip/step_by adapters
+        adapters = [b["callee"] for _, b in fn.calls() if re.search(r"::(take|skip|step_by|take_while|skip_while|filter|nth|last|first|split_at)$", b["callee"])]
+        R.inst("C04.i", "ParallelMarker::mark waits for every worker it woke", ok_wait and not adapters,
+               "ParallelMarker::mark can return (and the sweep start) without having received the acknowledgement of every "
+               "worker it woke: slots reachable only through work still in flight are swept", fn.loc(), sample={"adapters": adapters})
+
     # ---------------- g: the two primitive steps of marking and of the weak collection
     R.rule("C04.g", "mark_heap_reference / mark_heap_vector of both marker contexts: on the not-yet-reachable path they set "
                     "the mark bit AND queue the slot's contents (push_back), and count the slot; FreeList::weak_collection's "
